@@ -133,7 +133,8 @@ class Const(Expr):
         if type(self.val) == int:
             return Int(self.val)
         elif type(self.val) == bool:
-            return true if self.val else false
+            # Note true is redefined below as an expression
+            return term.true if self.val else term.false
         else:
             raise NotImplementedError
 
